@@ -283,6 +283,17 @@ def run(E: Engine, rep: Report, tier: str) -> dict:
         preds.append((subject, lits))
     ok = len(preds) >= 2 and len({p for _s, p in preds}) == 1
     rep.check(ok, "SIB", "Variable.__getitem__|same-bounds-for-int-and-sequence", "an integer key and every element of a sequence key are rejected by the same bounds predicate", f"Variable.__getitem__ bounds a single index and the elements of an index list differently: {[sorted(sym.show(x) for x in p) for _s, p in preds]} -- an item that the evaluated array accepts (e.g. [-size]) is refused for the variable, so the parametrized program cannot be written although the direct one is valid", E.where(vg))
+    # a variable item is usable wherever the evaluated value is: the sequence collects targets in sets, so an item must
+    # be hashable for every key kind Variable.__getitem__ produces.  VariableItem is a frozen dataclass (generated hash
+    # over var and key): if __getitem__ can store a list key, the class has to define its own __hash__.
+    vi = E.cls("pulser.parametrized.variable.VariableItem")
+    made = [l for l in S(E, vg).logged("return") if l.value is not None]
+    keys_ = [a_ for l in made for v_ in [unobj(l.value)] if v_[0] == "call" and v_[1] == ("name", "VariableItem") for a_ in [v_[2][1] if len(v_[2]) > 1 else dict(v_[3]).get("key")] if a_ is not None]
+    if not keys_:
+        raise AnalysisError("anchor: Variable.__getitem__ no longer returns VariableItem(self, key)")
+    list_key = any(t[0] == "list" or (t[0] == "comp" and t[1] == "list") or (t[0] == "call" and t[1] == ("name", "list")) for k_ in keys_ for t in sym.subterms(k_))
+    own_hash = "__hash__" in vi.methods
+    rep.check(own_hash or not list_key, "SIB", "VariableItem|hashable-for-every-key-kind", "a list key is only stored if VariableItem defines __hash__", "Variable.__getitem__ stores a sequence of indices as a list, and VariableItem (a frozen dataclass without its own __hash__) hashes its key: `seq.target_index(var[[0, 2]], ch)` raises TypeError (unhashable type: 'list') where the direct call with [0, 2] is accepted", E.where(vg))
     # ARGS: queries on a parametrized sequence read the stored (not yet executed) calls; they may index the positional
     # arguments only where the argument must be positional -- otherwise a call the direct construction accepts makes
     # the template raise IndexError
